@@ -132,3 +132,166 @@ HARNESSES += [
     _h("c02m_index_struct_expr", h_index_struct_expr, "n, fields: whole i128 range; 2-field record"),
     _h("c02m_index_struct", h_index_struct, "n, fields: whole i128 range; 2-field record"),
 ]
+
+
+# ---- value aggregation of an output (tx3-cardano) and directive amounts ---------------------
+
+def h_aggregate_lovelace(ctx, tier, seed):
+    """an output whose (client-built) asset list holds two lovelace entries: the output carries
+    their exact sum or compilation fails — never a wrapped sum, never a panic"""
+    import mharness
+    eng = mharness.engine_for(["tx3-cardano", "tx3-tir"])
+    ctx.eng = eng
+    T = TIR(eng)
+    x = ctx.sym_int("x", "i128"); y = ctx.sym_int("y", "i128")
+    eng.assume(z3.And(x >= 0, x < (1 << 64), y >= 0, y < (1 << 64)))
+    o = T.st("Output", address=T.address([0x60] + [2] * 28), datum=T.none(), amount=T.assets([T.asset(T.none(), T.none(), T.num(x)), T.asset(T.none(), T.none(), T.num(y))]), optional=False)
+    net = eng.mk_variant("NetworkId", "Testnet", [])
+    try:
+        r = models.deref(eng.call_fn(eng.find(short="compile_output_block"), [ref_to_value(o), net]))
+    except Panic as p:
+        eng.stats.panic_paths += 1
+        ctx.violation("compile_output_block panicked: %s" % p.kind, site=p.site, shape="output value aggregation: %s" % p.kind)
+        return
+    if r.variant != "Ok":
+        ctx.require(x + y >= (1 << 64), "a representable lovelace total is accepted", shape="representable lovelace total rejected")
+        return
+    from harness.c01 import decode_output
+    d = decode_output(eng, r.fields[0])
+    ctx.require(z3.ZeroExt(64, eng.to_bv(d["coin"], 64)) == x + y, "the output's lovelace is the exact sum of its entries", shape="lovelace total wrapped")
+
+
+def h_directive_amounts(ctx, tier, seed):
+    """withdrawal amount, treasury donation, metadata label: exact or an error, for every i128"""
+    import mharness
+    eng = mharness.engine_for(["tx3-cardano", "tx3-tir"])
+    ctx.eng = eng
+    T = TIR(eng)
+    v = ctx.sym_int("v", "i128")
+    which = eng.choose(3, "site")
+    net = eng.mk_variant("NetworkId", "Testnet", [])
+    fits = z3.And(v >= 0, v < (1 << 64))
+    try:
+        if which == 0:
+            d = T.st("AdHocDirective", name=StrM("withdrawal", True), data=MapM("HashMap", [[StrM("credential", True), True, T.address([0xE0] + [7] * 28)], [StrM("amount", True), True, T.num(v)], [StrM("redeemer", True), True, T.none()]]))
+            r = models.deref(eng.call_fn(eng.find(short="compile_withdrawal_directive"), [ref_to_value(d), net]))
+            got = models.deref(r.fields[0]).fields[1] if r.variant == "Ok" else None
+            ok_when = fits
+        elif which == 1:
+            d = T.st("AdHocDirective", name=StrM("treasury_donation", True), data=MapM("HashMap", [[StrM("coin", True), True, T.num(v)]]))
+            tx = mk_tx(T, adhoc=[d])
+            r = models.deref(eng.call_fn(eng.find(short="compile_donation"), [ref_to_value(tx)]))
+            got = None
+            if r.variant == "Ok":
+                o = models.deref(r.fields[0])
+                ctx.require(o.variant == "Some", "the donation is present")
+                got = models.deref(o.fields[0]).fields[0] if o.variant == "Some" else None
+            ok_when = z3.And(v > 0, v < (1 << 64))
+        else:
+            tx = mk_tx(T, metadata=[T.st("Metadata", key=T.num(v), value=T.string("m"))])
+            r = models.deref(eng.call_fn(eng.find(short="compile_auxiliary_data"), [ref_to_value(tx)]))
+            got = None
+            if r.variant == "Ok":
+                o = models.deref(r.fields[0])
+                if o.variant == "Some":
+                    a = models.deref(o.fields[0])
+                    mm = None
+                    stack = [a]
+                    while stack and mm is None:
+                        cur = models.deref(stack.pop())
+                        if isinstance(cur, MapM):
+                            mm = cur
+                        elif isinstance(cur, Agg):
+                            stack += list(cur.fields)
+                    got = mm.entries[0][0] if mm and mm.entries else None
+            ok_when = fits
+    except Panic as p:
+        eng.stats.panic_paths += 1
+        ctx.violation("directive amount site %d panicked: %s" % (which, p.kind), site=p.site, shape="directive amount: %s" % p.kind)
+        return
+    site = ["withdrawal amount", "treasury donation", "metadata label"][which]
+    if r.variant == "Ok":
+        ctx.require(got is not None, "%s: a value is produced" % site)
+        if got is not None:
+            ctx.require(z3.And(ok_when, z3.ZeroExt(64, eng.to_bv(got, 64)) == v), "%s is the exact value of the expression" % site, shape="%s wrapped or truncated" % site)
+    else:
+        ctx.require(z3.Not(ok_when), "%s: a representable value is accepted" % site, shape="%s rejected although representable" % site)
+
+
+HARNESSES += [
+    _h("c02m_aggregate_lovelace", h_aggregate_lovelace, "output with two lovelace entries x, y in [0, 2^64)", crates=["tx3-cardano", "tx3-tir"]),
+    _h("c02m_directive_amounts", h_directive_amounts, "withdrawal amount / donation / metadata label: whole i128 range", crates=["tx3-cardano", "tx3-tir"]),
+]
+
+
+def h_aggregate_token(ctx, tier, seed):
+    """an output naming one token twice with amounts x, y in [1, 2^64): it carries x + y of the
+    token, or compilation fails — the token is never dropped"""
+    import mharness
+    eng = mharness.engine_for(["tx3-cardano", "tx3-tir"])
+    ctx.eng = eng
+    T = TIR(eng)
+    x = ctx.sym_int("x", "i128"); y = ctx.sym_int("y", "i128")
+    eng.assume(z3.And(x >= 1, x < (1 << 64), y >= 1, y < (1 << 64)))
+    pol = T.bytes([4] * 28); nm = T.bytes([0x41])
+    o = T.st("Output", address=T.address([0x60] + [2] * 28), datum=T.none(), amount=T.assets([T.asset(pol, nm, T.num(x)), T.asset(pol, nm, T.num(y))]), optional=False)
+    net = eng.mk_variant("NetworkId", "Testnet", [])
+    try:
+        r = models.deref(eng.call_fn(eng.find(short="compile_output_block"), [ref_to_value(o), net]))
+    except Panic as p:
+        eng.stats.panic_paths += 1
+        ctx.violation("compile_output_block panicked: %s" % p.kind, site=p.site, shape="output token aggregation: %s" % p.kind)
+        return
+    if r.variant != "Ok":
+        ctx.require(x + y >= (1 << 64), "a representable token total is accepted", shape="representable token total rejected")
+        return
+    from harness.c01 import decode_output
+    d = decode_output(eng, r.fields[0])
+    got = d["assets"].get((tuple([4] * 28), (0x41,)))
+    ctx.require(got is not None, "the token is present in the output", shape="token total dropped")
+    if got is not None:
+        ctx.require(z3.ZeroExt(64, eng.to_bv(got, 64)) == x + y, "the output's token amount is the exact sum of its entries", shape="token total wrapped")
+
+
+def h_aggregate_mint(ctx, tier, seed):
+    """two mint blocks of one asset class with amounts x, y in [1, 2^63): the mint field carries
+    x + y or compilation fails — the entry is never dropped"""
+    import mharness
+    eng = mharness.engine_for(["tx3-cardano", "tx3-tir"])
+    ctx.eng = eng
+    T = TIR(eng)
+    x = ctx.sym_int("x", "i128"); y = ctx.sym_int("y", "i128")
+    eng.assume(z3.And(x >= 1, x < (1 << 63), y >= 1, y < (1 << 63)))
+    burn = eng.choose(2, "both blocks are burns") == 1
+    blk = lambda a: T.st("Mint", amount=T.assets([T.asset(T.bytes([4] * 28), T.bytes([0x41]), T.num(a))]), redeemer=T.none())
+    tx = mk_tx(T, **{("burns" if burn else "mints"): [blk(x), blk(y)]})
+    try:
+        r = models.deref(eng.call_fn(eng.find(short="compile_mint_block"), [ref_to_value(tx)]))
+    except Panic as p:
+        eng.stats.panic_paths += 1
+        ctx.violation("compile_mint_block panicked: %s" % p.kind, site=p.site, shape="mint aggregation: %s" % p.kind)
+        return
+    fits = (x + y <= (1 << 63)) if burn else (x + y < (1 << 63))
+    if r.variant != "Ok":
+        ctx.require(z3.Not(fits), "a representable mint total is accepted", shape="representable mint total rejected")
+        return
+    o = models.deref(r.fields[0])
+    ctx.require(o.variant == "Some", "the mint field is present", shape="mint total dropped")
+    if o.variant != "Some":
+        return
+    amt = None
+    for k, p, v in models.deref(o.fields[0]).entries:
+        for a, ap, q in models.deref(v).entries:
+            if p is not False and ap is not False:
+                q = models.deref(q)
+                amt = q.fields[0] if isinstance(q, Agg) else q
+    ctx.require(amt is not None, "the asset is present in the mint field", shape="mint total dropped")
+    if amt is not None:
+        want = -(x + y) if burn else (x + y)
+        ctx.require(z3.SignExt(64, eng.to_bv(amt, 64)) == want, "the mint quantity is the exact total", shape="mint total wrapped")
+
+
+HARNESSES += [
+    _h("c02m_aggregate_token", h_aggregate_token, "output naming one token twice, amounts in [1, 2^64)", crates=["tx3-cardano", "tx3-tir"]),
+    _h("c02m_aggregate_mint", h_aggregate_mint, "two mint (or two burn) blocks of one asset class, amounts in [1, 2^63)", crates=["tx3-cardano", "tx3-tir"]),
+]
